@@ -53,11 +53,28 @@ func formatSymInt(v *Term, w int, signed bool, base int64) []Val {
 		if neg {
 			out = append(out, int64('-'))
 		}
-		bt := mkInt64(base)
+		// the k digits are fresh integers defined by x = sum d_i*base^i, 0 <= d_i < base
+		// (positional notation is unique, so this is equivalent to the div/mod
+		// definition and keeps later re-parsing linear)
+		sum := mkInt64(0)
+		digits := make([]*Term, k)
 		for i := k - 1; i >= 0; i-- {
+			d := in.fresh("digit", intSort)
+			varRange[d.id] = &ival{big.NewInt(0), big.NewInt(base - 1)}
+			in.ex.addPC(in.path, mkICmp(OILe, mkInt64(0), d))
+			in.ex.addPC(in.path, mkICmp(OILt, d, mkInt64(base)))
+			digits[i] = d
 			p := new(big.Int).Exp(big.NewInt(base), big.NewInt(int64(i)), nil)
-			d := mkIBin(OIMod, mkIBin(OIDiv, x, mkInt(p)), bt)
-			out = append(out, digitChar(mkInt2Bv(d, 8), base))
+			sum = mkIBin(OIAdd, sum, mkIBin(OIMul, d, mkInt(p)))
+		}
+		in.ex.addPC(in.path, mkEq(x, sum))
+		// keep the witness model consistent with the new definitions
+		if res, m := in.ex.feasible(in.path, tTrue); res == "sat" {
+			in.path.model = m
+		}
+		in.path.model = completeDigits(in.path.model, x, digits, base)
+		for i := k - 1; i >= 0; i-- {
+			out = append(out, digitCharInt(digits[i], base))
 		}
 		return out
 	}
@@ -107,6 +124,46 @@ func formatSymInt(v *Term, w int, signed bool, base int64) []Val {
 		out = append(out, digitChar(mkExtract(7, 0, d), base))
 	}
 	return out
+}
+
+// completeDigits extends the witness model with the digit values of x.
+func completeDigits(m Model, x *Term, digits []*Term, base int64) Model {
+	nm := m.clone()
+	v := new(big.Int).Set(evalTerm(x, m).z)
+	b := big.NewInt(base)
+	for i := 0; i < len(digits); i++ {
+		d := new(big.Int)
+		v.QuoRem(v, b, d)
+		nm[digits[i].id] = EVal{z: d, u: d.Uint64()}
+	}
+	return nm
+}
+
+// digitCharInt: the character of an Int-sorted digit as a byte term.
+func digitCharInt(d *Term, base int64) Val {
+	b := mkInt2Bv(d, 8)
+	if base <= 10 {
+		return fromBV(mkBin(OAdd, b, mkBV('0', 8)), 8, false)
+	}
+	// fork on digit/letter so that the character is plain arithmetic on the digit
+	if in.ex.branch(in.path, mkICmp(OILt, d, mkInt64(10))) {
+		// a decimal digit: d = e with e in 0..9
+		e := in.fresh("digitlo", intSort)
+		varRange[e.id] = &ival{big.NewInt(0), big.NewInt(9)}
+		in.ex.addPC(in.path, mkEq(d, e))
+		in.path.model[e.id] = evalTerm(d, in.path.model)
+		return fromBV(mkBin(OAdd, mkInt2Bv(e, 8), mkBV('0', 8)), 8, false)
+	}
+	// a letter: d = e + 10 with e in 0..base-11, so that the character's range is known
+	e := in.fresh("digithi", intSort)
+	varRange[e.id] = &ival{big.NewInt(0), big.NewInt(base - 11)}
+	in.ex.addPC(in.path, mkEq(d, mkIBin(OIAdd, e, mkInt64(10))))
+	dv := evalTerm(d, in.path.model).z
+	if dv != nil {
+		ev := new(big.Int).Sub(dv, big.NewInt(10))
+		in.path.model[e.id] = EVal{z: ev, u: ev.Uint64()}
+	}
+	return fromBV(mkBin(OAdd, mkInt2Bv(e, 8), mkBV('a', 8)), 8, false)
 }
 
 func digitChar(d *Term, base int64) Val {
